@@ -110,9 +110,123 @@ pub fn static_eval(args: &[String]) {
     println!("{}", json!({"nodes": keys.len()}));
 }
 
+thread_local! { static FAMILY: Cell<u8> = Cell::new(0); static RETRO: Cell<u8> = Cell::new(1); }
+
+fn legal_count(pos: &Pos) -> usize {
+    let mut b = pos.setup();
+    let t = b.turn();
+    MoveGenerator::with_cache_capacity(16).generate_moves(&mut b, t).len()
+}
+fn in_check(pos: &Pos, white: bool) -> bool {
+    let b = pos.setup();
+    let c = if white { chess::board::color::Color::White } else { chess::board::color::Color::Black };
+    evaluate::player_is_in_check(&b, &mut MoveGenerator::with_cache_capacity(16), c)
+}
+
+/// A position a given number of plies BEFORE a stalemate (or mate) of a lone king: the terminal
+/// position then sits exactly on the horizon of a search of that depth.  Built backwards (retro
+/// moves) with the code's own generator as a heuristic; the specification's state graph decides
+/// everything that is compared afterwards.
+fn random_before_terminal(rng: &mut Rng, plies: u8) -> Option<Pos> {
+    let strong_white = rng.chance(1, 2);
+    let (lone, sk) = if strong_white { (12u8, 6u8) } else { (6u8, 12u8) };
+    let off = if strong_white { 0u8 } else { 6u8 };
+    let mut b = [0u8; 64];
+    let edge = [0usize, 7, 56, 63, 1, 6, 8, 15, 48, 55, 57, 62, 3, 4, 24, 31, 32, 39, 59, 60][rng.below(20)];
+    b[edge] = lone;
+    let dist = |a: usize, c: usize| ((a % 8) as i32 - (c % 8) as i32).abs().max(((a / 8) as i32 - (c / 8) as i32).abs());
+    let ks = rng.below(64);
+    if ks == edge || dist(ks, edge) < 2 {
+        return None;
+    }
+    b[ks] = sk;
+    let extra = 1 + rng.below(2);
+    for _ in 0..extra {
+        let kind = [5u8, 4, 1, 5, 2, 3][rng.below(6)];
+        let s = rng.below(64);
+        if b[s] != 0 || (kind == 1 && (s < 8 || s >= 56)) {
+            return None;
+        }
+        b[s] = kind + off;
+    }
+    // terminal position: the lone side to move, no legal move (stalemate or mate)
+    let term = Pos { b, turn: if strong_white { 0 } else { 1 }, rights: 0, ep: 0 };
+    if in_check(&term, strong_white) || legal_count(&term) != 0 {
+        return None;
+    }
+    let mut pos = term;
+    for step in 0..plies {
+        let strong_to_unmove = step % 2 == 0;
+        let mut cands: Vec<Pos> = vec![];
+        if strong_to_unmove {
+            // take a strong man (not a pawn) back to a square it could have come from
+            for s in 0..64usize {
+                let x = pos.b[s];
+                if x == 0 || (x <= 6) != strong_white || x == 1 + off {
+                    continue;
+                }
+                for s0 in 0..64usize {
+                    if pos.b[s0] != 0 {
+                        continue;
+                    }
+                    let mut nb = pos.b;
+                    nb[s] = 0;
+                    nb[s0] = x;
+                    let p = Pos { b: nb, turn: if strong_white { 1 } else { 0 }, rights: 0, ep: 0 };
+                    if in_check(&p, !strong_white) {
+                        continue;
+                    }
+                    let mut bd = p.setup();
+                    let t = bd.turn();
+                    let ms = MoveGenerator::with_cache_capacity(16).generate_moves(&mut bd, t);
+                    if ms.iter().any(|m| sq_of(m.from_square()) as usize == s0 + 1 && sq_of(m.to_square()) as usize == s + 1 && m.captures().is_none()) {
+                        cands.push(p);
+                    }
+                }
+            }
+        } else {
+            // the lone king came from a neighbouring square
+            let k = pos.b.iter().position(|&x| x == lone).unwrap();
+            for k0 in 0..64usize {
+                if pos.b[k0] != 0 || dist(k0, k) != 1 {
+                    continue;
+                }
+                let mut nb = pos.b;
+                nb[k] = 0;
+                nb[k0] = lone;
+                let p = Pos { b: nb, turn: if strong_white { 0 } else { 1 }, rights: 0, ep: 0 };
+                if in_check(&p, strong_white) {
+                    continue;
+                }
+                let mut bd = p.setup();
+                let t = bd.turn();
+                let ms = MoveGenerator::with_cache_capacity(16).generate_moves(&mut bd, t);
+                if ms.iter().any(|m| sq_of(m.from_square()) as usize == k0 + 1 && sq_of(m.to_square()) as usize == k + 1) {
+                    cands.push(p);
+                }
+            }
+        }
+        if cands.is_empty() {
+            return None;
+        }
+        pos = cands[rng.below(cands.len())].clone();
+    }
+    if legal_count(&pos) == 0 {
+        return None;
+    }
+    Some(pos)
+}
+
 fn random_sparse(rng: &mut Rng, max_extra: usize) -> Pos {
     loop {
         let mut b = [0u8; 64];
+        let family = FAMILY.with(|f| f.get());
+        if family == 2 {
+            if let Some(p) = random_before_terminal(rng, RETRO.with(|r| r.get())) {
+                return p;
+            }
+            continue;
+        }
         let wk = rng.below(64);
         let mut bk = rng.below(64);
         while bk == wk || ((bk % 8) as i32 - (wk % 8) as i32).abs() <= 1 && ((bk / 8) as i32 - (wk / 8) as i32).abs() <= 1 {
@@ -121,9 +235,26 @@ fn random_sparse(rng: &mut Rng, max_extra: usize) -> Pos {
         b[wk] = 6;
         b[bk] = 12;
         let extra = 1 + rng.below(max_extra);
+        // family 1 ("bare"): one side has the lone king, often near an edge, the other a few heavy men:
+        // stalemates and mates lie within the search horizon
+        let strong = rng.below(2) as u8;
+        if family == 1 && rng.chance(2, 3) {
+            b[bk] = 0;
+            b[wk] = 0;
+            let edge = [0usize, 7, 56, 63, 1, 6, 8, 15, 48, 55, 57, 62, 3, 4, 24, 31, 32, 39, 59, 60][rng.below(20)];
+            let (lone, other) = if strong == 0 { (12u8, 6u8) } else { (6u8, 12u8) };
+            b[edge] = lone;
+            loop {
+                let s = rng.below(64);
+                if s != edge && ((s % 8) as i32 - (edge % 8) as i32).abs().max(((s / 8) as i32 - (edge / 8) as i32).abs()) >= 2 {
+                    b[s] = other;
+                    break;
+                }
+            }
+        }
         for _ in 0..extra {
-            let kind = [1u8, 4, 2, 3, 5, 1][rng.below(6)];
-            let col = rng.below(2) as u8;
+            let kind = if family == 1 { [5u8, 4, 1, 1, 5, 2][rng.below(6)] } else { [1u8, 4, 2, 3, 5, 1][rng.below(6)] };
+            let col = if family == 1 { strong } else { rng.below(2) as u8 };
             for _ in 0..30 {
                 let s = rng.below(64);
                 if b[s] != 0 || (kind == 1 && (s < 8 || s >= 56)) {
@@ -161,51 +292,96 @@ pub fn exact(args: &[String]) {
     let sequences = arg_u64(args, "--sequences", 5);
     let seq_len = arg_u64(args, "--seq-len", 4);
     let threads = arg_u64(args, "--threads", 4) as usize;
+    if arg_val(args, "--family").as_deref() == Some("bare") {
+        FAMILY.with(|f| f.set(1));
+    }
+    if arg_val(args, "--family").as_deref() == Some("terminal") {
+        // roots exactly `depth` plies before a stalemate / mate of a lone king
+        FAMILY.with(|f| f.set(2));
+        RETRO.with(|r| r.set(depth));
+    }
     let mut rng = Rng::new(seed);
     let mut file = std::io::BufWriter::new(std::fs::File::create(&args[0]).unwrap());
     let mut n = 0;
-    for _ in 0..roots {
-        let pos = random_sparse(&mut rng, max_extra);
-        let (res, _o, _c, score) = search_once(&pos, 0, depth, threads, None);
-        writeln!(file, "{}", json!({"root": pos.to_json(), "depth": depth, "context": "new", "res": res, "score": score})).unwrap();
-        n += 1;
-    }
-    for s in 0..sequences {
-        // successive searches of a game with ONE context: search, play the move, play a reply, search again
-        let mut pos = random_sparse(&mut rng, max_extra);
-        let mut ctx = Some(SearchContext::new(depth));
-        for step in 0..seq_len {
-            let (res, _o, c, score) = search_once(&pos, 0, depth, threads, ctx.take());
-            writeln!(file, "{}", json!({"root": pos.to_json(), "depth": depth, "context": format!("reused:{}:{}", s, step), "res": res, "score": score})).unwrap();
+    if let Some(f) = arg_val(args, "--fen") {
+        // replay of one root: several brand-new-context searches of exactly this position
+        let pos = crate::trace::parse_fen(&f);
+        for _ in 0..roots {
+            let (res, _o, _c, score) = search_once(&pos, 0, depth, threads, None);
+            writeln!(file, "{}", json!({"root": pos.to_json(), "depth": depth, "context": "new", "res": res, "score": score})).unwrap();
             n += 1;
-            ctx = c;
-            if ctx.is_none() || res["kind"] != "ok" {
-                break;
-            }
-            // play the engine's move and a reply chosen by the harness
-            let mut board = pos.setup();
-            let m = Mv::from_json(&res["m"]).to_chess_move(board.turn());
-            if m.apply(&mut board).is_err() {
-                break;
-            }
-            board.toggle_turn();
-            let mut g = MoveGenerator::with_cache_capacity(16);
-            let t = board.turn();
-            let replies = g.generate_moves(&mut board, t);
-            if replies.is_empty() {
-                break;
-            }
-            let r = replies[rng.below(replies.len())].clone();
-            if r.apply(&mut board).is_err() {
-                break;
-            }
-            board.toggle_turn();
-            pos = Pos::of_board(&board);
-            let t2 = board.turn();
-            if g.generate_moves(&mut board, t2).is_empty() {
-                break;
-            }
         }
+        file.flush().unwrap();
+        println!("{}", json!({"searches": n}));
+        return;
+    }
+    // jobs: fresh-context roots, and sequences (one context reused along a game); run 4 at a time
+    let root_list: Vec<Pos> = (0..roots).map(|_| random_sparse(&mut rng, max_extra)).collect();
+    let seq_starts: Vec<(Pos, u64)> = (0..sequences).map(|_| (random_sparse(&mut rng, max_extra), rng.next())).collect();
+    let lines: Mutex<Vec<String>> = Mutex::new(vec![]);
+    let next = Mutex::new(0usize);
+    let njobs = root_list.len() + seq_starts.len();
+    std::thread::scope(|sc| {
+        for _ in 0..4 {
+            sc.spawn(|| loop {
+                let j = {
+                    let mut g = next.lock().unwrap();
+                    let j = *g;
+                    *g += 1;
+                    j
+                };
+                if j >= njobs {
+                    break;
+                }
+                if j < root_list.len() {
+                    let pos = &root_list[j];
+                    let (res, _o, _c, score) = search_once(pos, 0, depth, threads, None);
+                    lines.lock().unwrap().push(json!({"root": pos.to_json(), "depth": depth, "context": "new", "res": res, "score": score}).to_string());
+                    continue;
+                }
+                // successive searches of a game with ONE context: search, play the move, play a reply, search again
+                let s = j - root_list.len();
+                let (mut pos, rs) = seq_starts[s].clone();
+                let mut rng = Rng::new(rs);
+                let mut ctx = Some(SearchContext::new(depth));
+                for step in 0..seq_len {
+                    let (res, _o, c, score) = search_once(&pos, 0, depth, threads, ctx.take());
+                    lines.lock().unwrap().push(json!({"root": pos.to_json(), "depth": depth, "context": format!("reused:{}:{}", s, step), "res": res, "score": score}).to_string());
+                    ctx = c;
+                    if ctx.is_none() || res["kind"] != "ok" {
+                        break;
+                    }
+                    let mut board = pos.setup();
+                    let m = Mv::from_json(&res["m"]).to_chess_move(board.turn());
+                    if m.apply(&mut board).is_err() {
+                        break;
+                    }
+                    board.toggle_turn();
+                    let mut g = MoveGenerator::with_cache_capacity(16);
+                    let t = board.turn();
+                    let replies = g.generate_moves(&mut board, t);
+                    if replies.is_empty() {
+                        break;
+                    }
+                    let r = replies[rng.below(replies.len())].clone();
+                    if r.apply(&mut board).is_err() {
+                        break;
+                    }
+                    board.toggle_turn();
+                    pos = Pos::of_board(&board);
+                    let t2 = board.turn();
+                    if g.generate_moves(&mut board, t2).is_empty() {
+                        break;
+                    }
+                }
+            });
+        }
+    });
+    let mut all = lines.into_inner().unwrap();
+    all.sort();
+    for l in all.iter() {
+        writeln!(file, "{}", l).unwrap();
+        n += 1;
     }
     file.flush().unwrap();
     println!("{}", json!({"searches": n}));
@@ -377,8 +553,12 @@ pub fn sched(args: &[String]) {
     let mut file = std::io::BufWriter::new(std::fs::File::create(&args[0]).unwrap());
     let mut total_steps = 0u64;
     let mut searches = 0u64;
+    let fixed = arg_val(args, "--fen").map(|f| crate::trace::parse_fen(&f));
     for pi in 0..npos {
-        let pos = random_sparse(&mut rng, max_extra);
+        let pos = match &fixed {
+            Some(p) => p.clone(),
+            None => random_sparse(&mut rng, max_extra),
+        };
         let mut b0 = pos.setup();
         let t0 = b0.turn();
         let nroot = MoveGenerator::with_cache_capacity(16).generate_moves(&mut b0, t0).len();
